@@ -1147,6 +1147,63 @@ theorem c06_request_exact (r : ProtoRow) (hr : r ∈ protoTable) (hdev : (r.1.1,
     rw [hpay l hl]
     exact (c06_exact l r.2.1 hc.2.1 v hv tail 0).1
 
+/-- **A whole response, end to end**: the response to an open request of a row outside the
+    deviations - any conforming body value, whatever follows - is matched to that request by its
+    correlation id, its payload carries exactly the encoded field values in order, its size is
+    its length, the request leaves the set of open requests, and the next message starts right
+    after it. -/
+theorem c06_response_exact (r : ProtoRow) (hr : r ∈ protoTable) (hdev : (r.1.1, r.1.2, Dir.resp) ∉ deviations)
+    (open_ : List Req) (q : Req) (hq : open_.find? (fun o => o.corr == q.corr) = some q)
+    (hqa : q.apiKey = r.1.1) (hqv : q.ver = r.1.2) (hcorr : inRange 32 q.corr = true)
+    (v : Val) (tail : Bytes) (hv : conforms r.2.2.2.1 v = true)
+    (hsize : 4 + (enc false r.2.2.2.1 v).length ≤ 1000000) :
+    let m : SMsg := { corr := q.corr, body := .typed r.2.2.2.1 false v }
+    ∃ it, readResponse open_ (encResponse m ++ tail) =
+        .ok (some it, open_.filter (fun o => o.corr != q.corr), tail) ∧
+      it.req.corr = q.corr ∧ it.req.apiKey = r.1.1 ∧ it.resp.corr = q.corr ∧
+      it.resp.size = ((encResponse m).length - 4 : Nat) ∧ leaves it.resp.payload = leaves v := by
+  intro m
+  have h := c06_row r hr
+  unfold rowOk at h
+  simp only [Bool.and_eq_true, Bool.or_eq_true] at h
+  have hc : rowCompat r .resp = true := by
+    rcases h.2 with h1 | h1
+    · exact h1
+    · exact absurd (List.contains_iff_mem.mp h1) hdev
+  unfold rowCompat at hc
+  simp only [Bool.and_eq_true, Bool.not_eq_true'] at hc
+  cases hl : (lookupLayout r.1.1 r.1.2).2 with
+  | none => rw [hl] at hc; simp at hc
+  | some l =>
+    rw [hl] at hc
+    simp only [Bool.and_eq_true, Bool.not_eq_true'] at hc
+    let body := enc false r.2.2.2.1 v
+    let R : Bytes := encInt 4 q.corr ++ body
+    have hRlen : R.length = 4 + body.length := by simp [R, encInt_length]
+    have henc : encResponse m = encInt 4 R.length ++ R := by
+      simp [encResponse, m, Body.flex, encBody, R, body]
+    have hlen4 : (encResponse m).length - 4 = R.length := by rw [henc]; simp [encInt_length]
+    have hRbound : R.length ≤ 1000000 := by simp only [body] at hRlen; omega
+    have hsz : readInt 4 { stream := encResponse m ++ tail, remain := 4 } = ((R.length : Int), after (R ++ tail) 0) := by
+      rw [henc, List.append_assoc]
+      have := readInt_before 4 (by simp) (R.length : Int) (by unfold inRange; simp; omega) (R ++ tail) 0
+      simpa [before, encInt_length] using this
+    have hd0 : ({ (after (R ++ tail) 0) with remain := ((R.length : Int)).toNat } : D) = before R tail 0 := by
+      simp [before, after]
+    have h1 : readInt 4 (before R tail 0) = (q.corr, before body tail 0) := by
+      show readInt 4 (before (encInt 4 q.corr ++ body) tail 0) = _
+      rw [before_append, readInt_before 4 (by simp) q.corr hcorr, after_as_before]
+    have hex := c06_exact l r.2.2.2.1 hc.2.1 v hv tail 0
+    have hfr : ((decode l (before body tail 0)).2.discardAll).stream = tail := by
+      rw [within_discardAll (decode_within l _) (by simp [before])]
+      simp [before]
+    unfold readResponse
+    simp only [hsz]
+    have hnotbig : ¬ ((R.length : Int) > 1000000) := by omega
+    have hnotsmall : ¬ ((R.length : Int) < 4) := by omega
+    simp only [hnotbig, hnotsmall, if_false, hd0, h1, hq, hqa, hqv, hl, hc.2.2, Bool.false_eq_true]
+    exact ⟨_, by rw [hfr], rfl, hqa, rfl, by simp [hlen4], hex.1⟩
+
 /-! ### non-vacuity: concrete rows, concrete conforming values -/
 
 /-- Metadata v5 response: brokers, cluster id (nullable), topics with partitions and their
